@@ -346,7 +346,9 @@ def exec (v : Variant) (s : St) (t : Nat) (i : Instr) (rest : List Instr) : St :
   | .searchEnabled => s.setProg t rest
   | .opEnd => s.setProg t rest
   | .idleGo c =>
-    (s.setProg t rest).setProg (idleTid t) [.idleRunSel c, .idleDoneW c, .idleRunClose c]
+    -- the supervisor goroutine of this IDLE (a previous one of the same submitter has ended: its
+    -- IdleCommand.Close waited for it)
+    (s.setProg t rest).setProg (idleTid t) (s.prog (idleTid t) ++ [.idleRunSel c, .idleDoneW c, .idleRunClose c])
   | .idleStop c => (s.updCmd c fun r => { r with idleStopped := true }).setProg t rest
   | .idleJoin c => if (s.cmd c).idleDone then s.setProg t rest else s
   | .idleRunSel c => if (s.cmd c).idleStopped then s.setProg t rest else s
